@@ -34,17 +34,20 @@ type seqDetail struct {
 }
 
 type seqDriver struct {
-	c       *mon.Ctx
-	wd      *watchdog
-	seen    sync.Map // violation key -> struct{}: first occurrence carries the detail
-	aborted atomic.Bool
-	heavy   chan struct{} // limits concurrent N=32767 bulk histories (memory)
-	mu      sync.Mutex
-	total   *seqStats
+	c         *mon.Ctx
+	wd        *watchdog
+	seen      sync.Map // violation key -> struct{}: first occurrence carries the detail
+	aborted   atomic.Bool
+	heavy     chan struct{} // limits concurrent N=32767 bulk histories (memory)
+	skipN     map[int]bool  // sizes whose construction never returned (boundary phase); read-only afterwards
+	abortCh   chan struct{}
+	abortOnce sync.Once
+	mu        sync.Mutex
+	total     *seqStats
 }
 
 func newSeqDriver(c *mon.Ctx) *seqDriver {
-	return &seqDriver{c: c, wd: newWatchdog(), heavy: make(chan struct{}, 3), total: newSeqStats()}
+	return &seqDriver{c: c, wd: newWatchdog(), heavy: make(chan struct{}, 3), total: newSeqStats(), skipN: map[int]bool{}, abortCh: make(chan struct{})}
 }
 
 type seqWorker struct {
@@ -96,11 +99,24 @@ func (d *seqDriver) parallel(total, chunk int64, f func(w *seqWorker, i int64)) 
 	case rep := <-d.wd.fired:
 		d.aborted.Store(true)
 		d.reportStuck(rep)
+		d.abortOnce.Do(func() { close(d.abortCh) })
+		return false
+	case <-d.abortCh: // a concurrent parallel() (boundary phase / enumeration) took the watchdog report
 		return false
 	}
 }
 
 func (d *seqDriver) reportStuck(rep stuckReport) {
+	if n := rep.slot.constructing.Load(); n != 0 {
+		if rep.blocked {
+			d.c.Violation(fmt.Sprintf("seq/construct/N=%d/never-returns", n), seqDetail{Part: "boundary", Source: "watchdog", N: int(n), Seed: d.c.Seed,
+				What:  fmt.Sprintf("client.VerifNewInFlight(maxInFlight=%d) did not return within the watchdog period; the goroutine is parked [%s] inside the library", n, rep.state),
+				Stack: rep.stack})
+		} else {
+			d.c.Inconclusive("seq: watchdog fired during construction, goroutine state [" + rep.state + "] not parked in the library")
+		}
+		return
+	}
 	r := rep.slot.run.Load()
 	if r == nil {
 		d.c.Inconclusive("seq: watchdog fired outside a history")
@@ -156,6 +172,7 @@ func (d *seqDriver) fold(s *seqStats) {
 	t.epilogues += s.epilogues
 	t.refillOK += s.refillOK
 	t.postClose += s.postClose
+	t.skipped += s.skipped
 	t.prngOps += s.prngOps
 	if s.prngMaxLen > t.prngMaxLen {
 		t.prngMaxLen = s.prngMaxLen
@@ -207,6 +224,9 @@ func (d *seqDriver) publish() {
 	c.Count("seq_I5_epilogues", t.epilogues)
 	c.Count("seq_I5_refill_of_N_succeeded_and_N+1_refused", t.refillOK)
 	c.Count("seq_sends_refused_after_close", t.postClose)
+	if t.skipped > 0 {
+		c.Count("seq_prng_histories_skipped(handler_cannot_be_constructed)", t.skipped)
+	}
 	c.Count("seq_prng_operations", t.prngOps)
 	c.Max("max_seq_prng_history_length", t.prngMaxLen)
 	for k, v := range t.cycles {
@@ -482,8 +502,8 @@ var prngWeights = []int{210, 210, 260, 200, 100, 20}
 func planPRNG(seed int64, i int64) (prngPlan, *mon.Rand) {
 	rng := mon.NewRand(seed, uint64(i)+(1<<32))
 	p := prngPlan{}
-	if i < int64(len(prngNs)) {
-		p.N = prngNs[i] // the first history of every N is a full fill / drain / refill cycle
+	if i < int64(len(prngNs))-1 {
+		p.N = prngNs[i] // the first history of every N is a full fill / drain / refill cycle (N=32767: boundary phase)
 	} else {
 		x := rng.Intn(1000)
 		for k, w := range prngWeights {
@@ -523,7 +543,7 @@ func planPRNG(seed int64, i int64) (prngPlan, *mon.Rand) {
 	case p.N > 128:
 		cyc = 100
 	}
-	p.Cycle = rng.Intn(1000) < cyc || i < int64(len(prngNs)) // the first history of every N is a full cycle
+	p.Cycle = rng.Intn(1000) < cyc || i < int64(len(prngNs))-1 // the first history of every N is a full cycle
 	switch {
 	case p.N <= 128 || p.Cycle:
 		p.FullEpi = true
@@ -730,6 +750,10 @@ func (g *prngGen) run() {
 func (d *seqDriver) prng(count int64) bool {
 	return d.parallel(count, 1, func(w *seqWorker, i int64) {
 		p, rng := planPRNG(d.c.Seed, i)
+		if d.skipN[p.N] {
+			w.st.skipped++ // the boundary phase found that a handler of this size cannot be constructed
+			return
+		}
 		if p.N > snapAllBelow && p.Cycle {
 			d.heavy <- struct{}{}
 			defer func() { <-d.heavy }()
